@@ -43,6 +43,7 @@ fn spell(sp: &str, n: usize, f: usize) -> String {
         "canon" => format!("{},{}", i, fr),
         "dot" => format!("{}.{}", i, fr),
         "nocomma" => i,
+        "tiny" => format!("0,{}5", "0".repeat(f.saturating_sub(1))),
         "plus" => format!("+{},{}", i, fr),
         "minus" => format!("-{},{}", i, fr),
         "exp" => "1e3".into(),
